@@ -358,12 +358,13 @@ Section CreateProofs.
         (destruct (oc_pred Orc (c_key s)); [|exact I]); (apply IH; [exact Ht|apply IX_push; exact Hix]).
   Qed.
 
-  Lemma range_builders_np Orc bs ix : IX bs ix -> forall P, no_panic (range_builders creds Orc P bs ix).
+  Lemma range_builders_np Orc bs ix : IX bs ix -> forall P, no_panic (range_builders creds S0 Orc P bs ix).
   Proof.
     intros Hix. induction P as [|s t IH]; cbn [range_builders]; [apply np_ok|].
     apply np_if; [exact IH|]. destruct (assoc (c_sig s) creds) as [[l|]|]; [|exact IH|apply np_err].
     destruct (assoc (c_ref s) ix) as [bi|] eqn:E; [|apply np_err].
     destruct (idx_lt bs bi (Hix _ _ E)) as [b Hb]. rewrite Hb. cbn [rbind].
+    apply np_if; [apply np_err|]. destruct (find _ (cpreds S0)) as [cs|]; [|apply np_err].
     apply np_if; [apply np_err|]. destruct (nth_error l (c_claim s)); [|apply np_err].
     apply np_if; [exact IH|apply np_err].
   Qed.
